@@ -964,24 +964,31 @@ func (P *Program) registerVHDB() {
 		return fmt.Sprintf("vh-%d%s", n, fr.in.goStr(args[0], "suffix"))
 	})
 	P.reg(VHDB+".MigrationsDir", func(fr *frame, args []value) value { return "/vhdb-model/migrations" })
-	P.reg("(*"+DBP+".sqLiteAdapter).connect", func(fr *frame, args []value) value {
+	// sqlx.Open / sqlx.Connect on the sqlite driver: attaches the model database of the file named by the DSN.
+	// The real sqLiteAdapter.connect runs (DSN construction included). The crash model of the checks - a
+	// transaction is applied entirely or not at all when the process is killed - is SQLite's rollback
+	// journal; a DSN that keeps the journal in memory or switches it off takes that away, and then the
+	// model does not describe the tree: inconclusive, with the reason.
+	openSqlite := func(fr *frame, args []value) value {
 		in := fr.in
-		cfgp := args[1].(*value)
-		if cfgp == nil {
-			panic(targetPanic{msg: "runtime error: invalid memory address or nil pointer dereference"})
+		driver := in.goStr(args[0], "sql driver name")
+		dsn := in.goStr(args[1], "data source name")
+		if driver != "sqlite3" {
+			panic(unsupported{"sqlx.Open with driver " + driver + " (only sqlite3 is modelled)"})
 		}
-		cfgT := in.P.namedType(RepoModule + "/config.DbConfig")
-		cfg := (*cfgp).(structure)
-		sq := cfg[structField(cfgT, "SQLite")]
-		var path string
-		switch q := sq.(type) {
-		case structure:
-			path = in.goStr(q[structField(in.P.namedType(RepoModule+"/config.SQLiteConfig"), "FilePath")], "sqlite file path")
-		case *value:
-			if q == nil {
-				panic(targetPanic{msg: "runtime error: invalid memory address or nil pointer dereference"})
+		path, query := strings.TrimPrefix(dsn, "file:"), ""
+		if k := strings.IndexByte(path, '?'); k >= 0 {
+			path, query = path[:k], path[k+1:]
+		}
+		for _, kv := range strings.Split(query, "&") {
+			k, v, _ := strings.Cut(kv, "=")
+			k, v = strings.ToLower(k), strings.ToUpper(v)
+			if (k == "_journal_mode" || k == "_journal") && (v == "MEMORY" || v == "OFF") {
+				panic(unsupported{"the store is opened with journal_mode=" + v + " (" + dsn + "): a process kill inside a write transaction is then not rolled back on restart, so the atomic-transaction crash model of this check does not describe this tree"})
 			}
-			path = in.goStr((*q).(structure)[structField(in.P.namedType(RepoModule+"/config.SQLiteConfig"), "FilePath")], "sqlite file path")
+			if k == "mode" && v == "MEMORY" || path == ":memory:" {
+				panic(unsupported{"the store is opened in memory (" + dsn + "): nothing survives a restart; outside the model"})
+			}
 		}
 		key := "dbfile:" + path
 		st, _ := in.extra[key].(*dbState)
@@ -993,11 +1000,11 @@ func (P *Program) registerVHDB() {
 		outer := in.zero(in.P.namedType("github.com/jmoiron/sqlx.DB"))
 		outer.(structure)[0] = &inner
 		var dbv value = &outer
-		ad := (*args[0].(*value)).(structure)
-		ad[structField(in.P.namedType(DBP+".sqLiteAdapter"), "db")] = dbv
-		in.path.noteAssumption("sqLiteAdapter.connect attaches the model database of the configured file; doMigrations is a no-op (schema in place)")
-		return iface{}
-	})
+		in.path.noteAssumption("sqlx.Open attaches the model database of the file named in the DSN; doMigrations is a no-op (schema in place)")
+		return tuple{dbv, iface{}}
+	}
+	P.reg("github.com/jmoiron/sqlx.Open", openSqlite)
+	P.reg("github.com/jmoiron/sqlx.Connect", openSqlite)
 	P.reg("(*"+DBP+".sqLiteAdapter).doMigrations", func(fr *frame, args []value) value { return iface{} })
 	P.reg(VHDB+".NewDB", func(fr *frame, args []value) value {
 		var inner value = &opaque{kind: "sql.DB", data: &dbHandle{st: fr.in.newDBState()}}
